@@ -21,7 +21,8 @@ CHECKS = {
         runs=[_run("read", ["--ops", "6", "--dev", "3"], ["--ops", "10", "--dev", "5"]),
               _run("write", ["--ops", "6", "--dev", "3"], ["--ops", "10", "--dev", "5"]),
               _run("connect", ["--ops", "6", "--dev", "3"], ["--ops", "10", "--dev", "5"]),
-              _run("accept", ["--ops", "6", "--dev", "3"], ["--ops", "10", "--dev", "5"])],
+              _run("accept", ["--ops", "6", "--dev", "3"], ["--ops", "10", "--dev", "5"]),
+              _run("duplex", ["--ops", "6", "--dev", "2"], ["--ops", "8", "--dev", "3"])],
         deadline=dict(quick=100, thorough=1200),
         bounds=dict(quick="per sub-driver: <=6 program steps (start/run/cancel/timer-cancel), <=3 kernel deviations; requests (buflen,min) in {(1,1),(3,1),(4,2),(4,4),(6,3),(5,0)}; peer scripts 0..7 bytes ending EOF/ECONNRESET/silence; address lists 0..3 x 7 behaviours, with/without timeout",
                     thorough="<=10 program steps, <=5 kernel deviations, same alphabets"),
